@@ -775,7 +775,10 @@ fn case_policy(ctx: &mut Ctx, case_seed: u64) {
     let _ = env.writer.take().unwrap().wait_merging_threads();
 }
 
-const ACTIONS: [&str; 9] = ["delete-commit", "delete-source-commit", "rollback", "delete-all-commit", "overlapping-merge", "disjoint-merge", "gc", "add-commit", "delete-commit-twice"];
+const ACTIONS: [&str; 12] = ["delete-commit", "delete-source-commit", "rollback", "delete-all-commit", "overlapping-merge", "disjoint-merge", "gc", "add-commit", "delete-commit-twice",
+    // a second merge that shares a source with the parked one in its LAST / a MIDDLE position, or
+    // takes all of its sources: the parked merge is stale when it resumes and must be cancelled
+    "overlap-shared-last", "overlap-shared-middle", "overlap-all-sources"];
 
 /// C. a committed merge paused at its k-th storage operation while the main thread acts
 fn case_schedule(ctx: &mut Ctx, case_seed: u64, forced: Option<(usize, u64)>) {
@@ -856,6 +859,25 @@ fn case_schedule(ctx: &mut Ctx, case_seed: u64, forced: Option<(usize, u64)>) {
             ids2.extend(rest_ids.iter().take(1));
             second = Some(env.writer.as_mut().unwrap().merge(&ids2));
         }
+        "overlap-shared-last" => {
+            let mut ids2: Vec<SegmentId> = rest_ids.iter().take(1).copied().collect();
+            ids2.push(*src_ids.last().unwrap());
+            second = Some(env.writer.as_mut().unwrap().merge(&ids2));
+            expect_discard = paused;
+        }
+        "overlap-shared-middle" => {
+            let mid = if src_ids.len() >= 3 { src_ids[1] } else { *src_ids.last().unwrap() };
+            let mut ids2: Vec<SegmentId> = vec![mid];
+            ids2.extend(rest_ids.iter().take(1));
+            second = Some(env.writer.as_mut().unwrap().merge(&ids2));
+            expect_discard = paused;
+        }
+        "overlap-all-sources" => {
+            let mut ids2: Vec<SegmentId> = src_ids.clone();
+            ids2.reverse();
+            second = Some(env.writer.as_mut().unwrap().merge(&ids2));
+            expect_discard = paused;
+        }
         "disjoint-merge" => {
             if !rest_ids.is_empty() {
                 second = Some(env.writer.as_mut().unwrap().merge(&rest_ids));
@@ -873,7 +895,11 @@ fn case_schedule(ctx: &mut Ctx, case_seed: u64, forced: Option<(usize, u64)>) {
     }
     if let Some(f) = second.take() {
         // let the second merge run to its end while the first is still paused
-        let _ = f.wait();
+        let second_ok = f.wait().is_ok();
+        if action.starts_with("overlap-") {
+            // the second merge consumed a source of the parked one: the parked merge is stale
+            expect_discard = paused && second_ok;
+        }
     }
     env.gate.with(|s| { s.resume = true; s.pause_at = None; });
     let res = fut.wait();
@@ -1147,28 +1173,25 @@ impl ScriptedPolicy {
 /// the machine; its published ids must equal the sequential replay (= the real searcher, which
 /// the oracle compares separately).
 fn check_trace_model(ctx: &mut Ctx, env: &Env, rng: &mut Rng, case: &Value) {
+    // the machine with any number of merges in flight (`SysM`): starts over all / all but the
+    // first segment of a register (so that merges overlap) and ends in arbitrary order
+    const MERGE_TOKS: [&str; 8] = ["mu", "mc", "mu1", "mc1", "e:0", "e:1", "e:2", "e:0"];
     let mut toks: Vec<String> = vec![];
-    let mut open = false;
     for t in &env.evlog {
-        if rng.chance(1, 3) {
-            if open {
-                toks.push("e".into());
-                open = false;
-            } else {
-                toks.push(if rng.chance(1, 2) { "mu".into() } else { "mc".into() });
-                open = true;
-            }
+        while rng.chance(1, 3) {
+            toks.push(rng.pick(&MERGE_TOKS).to_string());
         }
         toks.push(t.clone());
     }
-    if open {
-        toks.push("e".into());
+    for _ in 0..4 {
+        toks.push("e:0".into());
     }
-    let ans = ctx.model.ask(&format!("C04 trace {}", toks.join(" ")));
+    let ans = ctx.model.ask(&format!("C04 tracem {}", toks.join(" ")));
     let field = |name: &str| -> Option<BTreeSet<u64>> {
         ans.split('/').find_map(|p| p.strip_prefix(name)).and_then(crate::model::parse_nat_list).map(|v| v.into_iter().collect())
     };
     ctx.report.count("trace-model:asked");
+    ctx.report.count_n("trace-model:merge-events", toks.iter().filter(|t| t.starts_with('m') || t.starts_with('e')).count() as u64);
     match (field("pub="), field("abs=")) {
         (Some(p), Some(ab)) => {
             if p != env.committed || ab != env.committed {
@@ -1450,27 +1473,27 @@ pub fn run(ctx: &mut Ctx) {
         run_case(ctx, &kind, seed, &case["params"]);
         return;
     }
-    for _ in 0..ctx.budget(60, 2500) {
+    for _ in 0..ctx.budget(60, 500) {
         let s = ctx.rng.next_u64();
         run_case(ctx, "explicit", s, &json!({}));
     }
-    for _ in 0..ctx.budget(12, 300) {
+    for _ in 0..ctx.budget(12, 80) {
         let s = ctx.rng.next_u64();
         run_case(ctx, "policy", s, &json!({}));
     }
-    for _ in 0..ctx.budget(45, 1500) {
+    for _ in 0..ctx.budget(60, 400) {
         let s = ctx.rng.next_u64();
         run_case(ctx, "schedule", s, &json!({}));
     }
-    for _ in 0..ctx.budget(40, 1500) {
+    for _ in 0..ctx.budget(40, 300) {
         let s = ctx.rng.next_u64();
         run_case(ctx, "uncommitted", s, &json!({}));
     }
-    for _ in 0..ctx.budget(30, 1200) {
+    for _ in 0..ctx.budget(30, 250) {
         let s = ctx.rng.next_u64();
         run_case(ctx, "pending", s, &json!({}));
     }
-    for _ in 0..ctx.budget(40, 1500) {
+    for _ in 0..ctx.budget(40, 300) {
         let s = ctx.rng.next_u64();
         run_case(ctx, "upsert", s, &json!({}));
     }
